@@ -34,6 +34,9 @@ TECH = {
  "R29": "shape of the index timestamp derivation",
  "R30": "taint analysis from time.Now() to branch conditions reachable from query methods",
  "R32": "dominance of an index lookup over every opening of a segment's log file",
+ "R33": "def-use classification of every value stored into Message.Time on the publish path",
+ "R34": "def-use classification of the directory argument at every Segment constructor call site",
+ "R35": "error-atom flow: every outcome sentinel of a pure per-segment lookup is classified inside the loop over the segments",
 }
 
 TEXT = {
